@@ -604,7 +604,99 @@ func ruleSNAP4(c *Ctx) {
 			}
 		}
 		c.Check(bad == "", n+".GetSnapshot / children rendered in fixed slots", p.Pos(fn.Pos()), "no run-time reordering of child snapshots", bad+": operand/argument order is lost, so `a op b` and `b op a` (or f(x,y) and f(y,x)) are merged")
+		// each child snapshot is taken from one fixed field of the receiver (or the elements of one field slice), once
+		recv := ssa.Value(receiver(fn))
+		perField := map[string]int{}
+		badRecv := ""
+		for _, ci := range callsIn(fn) {
+			call, ok := ci.(*ssa.Call)
+			if !ok || !calleeNameIs(call, "GetSnapshot") {
+				continue
+			}
+			var rv ssa.Value
+			if call.Call.IsInvoke() {
+				rv = call.Call.Value
+			} else if len(call.Call.Args) > 0 {
+				rv = call.Call.Args[0]
+			}
+			rv = unspill(rv)
+			f, base := fieldLoad(rv)
+			if f == nil {
+				// element of a field slice / value of a field map inside a range loop
+				var hit *types.Var
+				mixed := false
+				backSlice(rv, func(w ssa.Value) bool {
+					if _, isPhi := w.(*ssa.Phi); isPhi && !isRangeIter(w) {
+						mixed = true
+					}
+					if ff, bb := fieldLoad(w); ff != nil && bb == recv {
+						if hit != nil && hit != ff {
+							mixed = true
+						}
+						hit = ff
+						return false
+					}
+					return true
+				})
+				if hit == nil || mixed {
+					badRecv = "the child whose snapshot is rendered at " + p.InstrPos(call) + " is chosen at run time (not one fixed field of the node)"
+				}
+				continue
+			}
+			if base != recv {
+				badRecv = "snapshot of something that is not a child of the receiver at " + p.InstrPos(call)
+				continue
+			}
+			perField[f.Name()]++
+		}
+		for fname, k := range perField {
+			if k > 1 && (fname == "LeftExpression" || fname == "RightExpression") {
+				badRecv = fmt.Sprintf("child %s is rendered at %d places: its slot depends on the path taken", fname, k)
+			}
+		}
+		c.Check(badRecv == "", n+".GetSnapshot / every slot renders one fixed child", p.Pos(fn.Pos()), fmt.Sprintf("%d child fields rendered from the receiver itself; binary operands once each", len(perField)), badRecv+": two nodes that differ in which operand stands where (or under which operator) get the same key")
 	}
+	// the operator slot is rendered from the node's own Operator field
+	if fn := p.Method("ast", "Expression", "GetSnapshot"); fn != nil {
+		recv := ssa.Value(receiver(fn))
+		opF := p.Field("ast", "Expression", "Operator")
+		nCmp, bad := 0, ""
+		for _, b := range fn.Blocks {
+			for _, in := range b.Instrs {
+				bo, ok := in.(*ssa.BinOp)
+				if !ok || bo.Op != token.EQL {
+					continue
+				}
+				var other ssa.Value
+				if _, isC := bo.Y.(*ssa.Const); isC && isBasicInt(bo.Y.Type()) {
+					other = bo.X
+				} else if _, isC := bo.X.(*ssa.Const); isC && isBasicInt(bo.X.Type()) {
+					other = bo.Y
+				} else {
+					continue
+				}
+				nCmp++
+				if f, base := fieldLoad(unspill(other)); f != opF || base != recv {
+					bad = "the operator rendered is selected by something other than the node's own Operator field at " + p.InstrPos(in)
+				}
+			}
+		}
+		c.Check(bad == "" && nCmp >= 15, "Expression.GetSnapshot / operator slot renders the node's own operator", p.Pos(fn.Pos()), fmt.Sprintf("%d operator tests, all on e.Operator", nCmp), bad+fmt.Sprintf(" (%d operator tests found): expressions with different operators can get the same key and share one node", nCmp))
+	}
+}
+
+func isBasicInt(t types.Type) bool {
+	b, ok := t.Underlying().(*types.Basic)
+	return ok && b.Info()&types.IsInteger != 0
+}
+
+// isRangeIter: a Phi that only carries a loop's iteration state (index / iterator), not a choice between children.
+func isRangeIter(v ssa.Value) bool {
+	phi, ok := v.(*ssa.Phi)
+	if !ok {
+		return false
+	}
+	return isBasicInt(phi.Type())
 }
 
 // ---------- INV-12 ----------
